@@ -1,22 +1,29 @@
 #!/bin/bash
-# usage: tools/mkscratch.sh <name>   -> /tmp/pa/<name>/lean (copy of /verif/lean incl. build output)
-#        tools/mkscratch.sh --collect <name>  -> lists files that differ from /verif/lean (sources only)
-#        tools/mkscratch.sh --merge <name>    -> copies new/changed .lean/.md sources back into /verif/lean
+# usage: tools/mkscratch.sh <name>   -> /tmp/pa/<name>/lean (copy of /verif/lean incl. build output; remembers the sources it started from)
+#        tools/mkscratch.sh --collect <name>  -> lists source files the agent created or changed (relative to its starting point)
+#        tools/mkscratch.sh --merge <name>    -> copies exactly those files back into /verif/lean (never CassisModel.lean: add imports by hand)
 set -e
 if [ "$1" = "--collect" ] || [ "$1" = "--merge" ]; then
-  mode="$1"; n="$2"; src="/tmp/pa/$n/lean"
+  mode="$1"; n="$2"; src="/tmp/pa/$n/lean"; base="/tmp/pa/$n/base"
   cd "$src"
-  find CassisModel CassisModel.lean Driver.lean -type f \( -name '*.lean' -o -name '*.md' -o -name '*.proposed' \) | while read -r f; do
-    if ! cmp -s "$f" "/verif/lean/$f"; then
-      echo "$f"
-      if [ "$mode" = "--merge" ]; then mkdir -p "/verif/lean/$(dirname "$f")"; cp "$f" "/verif/lean/$f"; fi
+  find CassisModel Driver.lean -type f \( -name '*.lean' -o -name '*.md' -o -name '*.proposed' \) | while read -r f; do
+    if [ -d "$base" ]; then
+      cmp -s "$f" "$base/$f" && continue        # unchanged by the agent
+    else
+      cmp -s "$f" "/verif/lean/$f" && continue
     fi
+    echo "$f"
+    if [ "$mode" = "--merge" ]; then mkdir -p "/verif/lean/$(dirname "$f")"; cp "$f" "/verif/lean/$f"; fi
   done
+  echo "-- imports added to CassisModel.lean by the agent:"
+  diff <(grep '^import' "${base:-/verif/lean}/CassisModel.lean" 2>/dev/null | sort) <(grep '^import' CassisModel.lean | sort) | grep '^>' || true
   exit 0
 fi
 n="$1"
 mkdir -p /tmp/pa
 rm -rf "/tmp/pa/$n"
-mkdir -p "/tmp/pa/$n"
+mkdir -p "/tmp/pa/$n/base"
 cp -a /verif/lean "/tmp/pa/$n/lean"
+# the sources as they were when the copy was made (without build output)
+(cd /verif/lean && find CassisModel CassisModel.lean Driver.lean -type f \( -name '*.lean' -o -name '*.md' -o -name '*.proposed' \) -print0 | cpio -0pdm "/tmp/pa/$n/base" 2>/dev/null)
 echo "/tmp/pa/$n/lean"
